@@ -57,6 +57,13 @@ def build():
                                 shapes['filters-first'] = ' and '.join(pfc + [ctext])
                                 shapes['time-in-group'] = '%s and (%s and %s)' % (pfc[0], pfc[0], ctext)
                                 shapes['group-first'] = '(%s and %s) and %s' % (ctext, pfc[0], pfc[0])
+                            if limit is None and ck in ('>', '>=', '=', '<', '<=', 'between'):
+                                # the bound written as a typed literal / in parentheses (the same number, another node kind)
+                                import re as _re
+                                for bk, fn in (('cast', lambda m: 'cast(%s as int)' % m.group(0)), ('colons', lambda m: '%s::int' % m.group(0)),
+                                               ('parens', lambda m: '(%s)' % m.group(0))):
+                                    shapes['bound-' + bk] = _re.sub(r'(?<![\w.])\d+(?![\w.])', fn, shapes['flat'].split(' and ')[0]) + \
+                                        ''.join(' and ' + x for x in shapes['flat'].split(' and ')[1:])
                             for shape, wtxt in shapes.items():
                                 frm = ('int1.%s as t join mindsdb.m as m' % tab) if side == 'right' else \
                                       ('mindsdb.m as m join int1.%s as t' % tab)
